@@ -121,7 +121,14 @@ var cigarOps = []string{"M", "I", "D", "N", "S", "H", "P", "=", "X", "B", "?"}
 //	CigarEqual          1        1
 //	CigarMismatch       1        1
 //	CigarBack           0       -1
-func (ct CigarOpType) Consumes() Consume { return consume[ct] }
+func (ct CigarOpType) Consumes() Consume {
+	if ct > lastCigar {
+		// BAM holds the operation in four bits; codes past the last
+		// defined operation consume nothing.
+		ct = lastCigar
+	}
+	return consume[ct]
+}
 
 // String returns the string representation of a CigarOpType.
 func (ct CigarOpType) String() string {
